@@ -14,6 +14,7 @@
 #include "muduo/base/noncopyable.h"
 #include "muduo/net/InetAddress.h"
 
+#include <atomic>
 #include <functional>
 #include <memory>
 
@@ -61,7 +62,7 @@ class Connector : noncopyable,
 
   EventLoop* loop_;
   InetAddress serverAddr_;
-  bool connect_; // atomic
+  std::atomic<bool> connect_;  // written by start()/stop() on any thread
   States state_;  // FIXME: use atomic variable
   std::unique_ptr<Channel> channel_;
   NewConnectionCallback newConnectionCallback_;
